@@ -535,4 +535,73 @@ def rule_R7(ctx):
                       g.loc(bad))
 
 
-RULES = {"R1": rule_R1, "R2": rule_R2, "R3": rule_R3, "R7": rule_R7}
+def rule_R8(ctx):
+    ctx.begin("R8", floor=3, what="the subject pointer never passes the terminator")
+    prog = ctx.prog
+    f = prog.func("ratom_match", file="regex.c")
+    # atom kinds from the comparisons with ra->ra
+    kinds = {}
+    for n in f.walk():
+        if n["k"] == "bin" and n["op"] == "==" and n["l"]["k"] == "member" and n["l"]["field"] == "ra":
+            v = cval(n["r"])
+            if v is not None:
+                kinds[v] = True
+    if len(kinds) < 5:
+        raise AnalysisBroken("ratom_match: atom kinds not found")
+    CHR, ANY, BRK = 0, ord("."), ord("[")
+    subj_alpha = [0x41, 0x61, 0x0a, 0xc3, 0xa9, 0xe2]
+    pats = [(0x41,), (0x61, 0x62), (0xc3, 0xa9), (0xc3,), (0x41, 0xc3, 0xa9)]
+    brks = [(0x5b, 0x61, 0x5d), (0x5b, 0x5e, 0x61, 0x5d), (0x5b, 0xc3, 0xa9, 0x5d), (0x5b, 0x5e, 0xc3, 0xa9, 0x5d)]
+    n_eval = 0
+    bad = None
+    for L in range(0, 4):
+        for combo in itertools.product(subj_alpha, repeat=L):
+            subj = tuple(combo) + (0,)
+            for start in range(0, L + 1):
+                cases = [(CHR, p, flg) for p in pats for flg in (0, 2)] + [(ANY, (), 0), (ANY, (), 4)] + \
+                    [(BRK, b, flg) for b in brks for flg in (0, 2)]
+                for ra, pat, flg in cases:
+                    n_eval += 1
+                    sp = Ptr(subj)
+                    rs = {"s": Ptr(subj, start, sp.log), "o": sp, "flg": flg, "pc": 0, "dep": 0}
+                    atom = {"ra": ra, "s": Ptr(tuple(pat) + (0,)) if pat else None}
+                    try:
+                        Interp(prog).call(f, [atom, rs])
+                    except OverRead as e:
+                        if bad is None:
+                            bad = ("reads past a terminator", ra, pat, subj, start, str(e))
+                        continue
+                    except Unsupported as e:
+                        raise AnalysisBroken("ratom_match not evaluable: %s" % e)
+                    cur = rs["s"]
+                    if not isinstance(cur, Ptr) or cur.off > L or cur.off < start:
+                        if bad is None:
+                            bad = ("leaves the subject pointer at %s" % (cur.off if isinstance(cur, Ptr) else cur),
+                                   ra, pat, subj, start, "")
+    show = lambda b: "".join("\\x%02x" % x for x in b[:-1])
+    if bad:
+        ctx.violation("ratom_match", "subject pointer stays within the line",
+                      "atom kind %r pattern \"%s\" on subject \"%s\" from offset %d %s %s" % (
+                          chr(bad[1]) if bad[1] else "literal", "".join("\\x%02x" % x for x in bad[2]),
+                          show(bad[3]), bad[4], bad[0], bad[5]))
+    else:
+        ctx.ok("ratom_match", "start <= rs->s <= end of subject and no over-read in %d atom x subject cases" % n_eval)
+    # marks are only ever rs->s - rs->o
+    rr = prog.func("re_rec", file="regex.c")
+    for n, lv, op, rhs in stores(rr.body):
+        lf = lv_field(lv)
+        if lf and lf[1] == "mark" and lf[2]:
+            if key(strip_casts(rhs)) in ("(rs->s-rs->o)",):
+                ctx.ok("re_rec", "a mark is the current offset rs->s - rs->o", loc=rr.loc(n))
+            else:
+                ctx.violation("re_rec", "mark value", "a mark is stored as %s" % key(rhs), rr.loc(n))
+    # regexec stops its scan at the terminator
+    rx = prog.func("regexec", file="regex.c")
+    lp = [x for x in rx.walk() if x["k"] in ("while", "for")]
+    if lp and any(key(cj) in ("(*o)", "(*s)") for cj in flatten_and(lp[0]["c"])):
+        ctx.ok("regexec", "scan stops at the terminator")
+    else:
+        ctx.violation("regexec", "scan stops at the terminator", "loop condition %s" % (key(lp[0]["c"]) if lp else None))
+
+
+RULES = {"R1": rule_R1, "R2": rule_R2, "R3": rule_R3, "R7": rule_R7, "R8": rule_R8}
